@@ -61,7 +61,7 @@ static int parseConvertElement(MPT_INTERFACE(convertable) *conv, MPT_TYPE(type) 
 	}
 	if (type == MPT_type_toVector('c')) {
 		while (isspace(*txt)) ++txt;
-		while (!isspace(*txt)) ++txt;
+		while (*txt && !isspace(*txt)) ++txt;
 		it->restore = (char *) txt;
 		it->save = *txt;
 		*it->restore = 0;
